@@ -8,31 +8,40 @@ import numpy as np
 ID = "C08"
 PROPS_FILE = "theories/Props/C08.v"
 EXTRACT = ("theories/Extract/XC08.v", "c08",
-           ["entry_fill", "entry_fill_bl", "entry_fill_eq", "entry_check", "entry_spec"])
+           ["entry_fill", "entry_fill_bl", "entry_fill_eq", "entry_gen_eq", "entry_check", "entry_spec", "entry_label_ok"])
 PYX = {"_cpmorphology2.pyx": ["fill_labeled_holes_loop"]}
 RULE = ("corpus of hand-drawn scenes (bullseyes, shared holes, multi-parent clusters, split labels) first; every "
         "image of a small shape over a small label alphabet (quick: all 3x3 over {0,1,2} and all 2x3 over {0,1,2,3}; "
         "thorough: all 3x4 over {0,1,2} = 531441 and all 2x4 over {0,1,2,3}) in batches of 48; random label images "
         "(shapes skewed to 1xN/Nx1/small, noise labels at several densities, nested rings, blobs relabelled by "
         "connected component, split and absent label numbers, many labels, multi-parent corridors) in bool/uint8/"
-        "uint16/int32/int64; checkerboards (quick 120x120 > 7000 regions; thorough 200x200 = 20000 regions through the model and 380x380 > 64K regions against binary_fill_holes only); "
+        "uint16/int32/int64; every dtype (bool, int8..int64, uint8..uint64, float32/64 with integral values) x every "
+        "layout (C, Fortran, strided view, negative strides, read-only, transposed view) incl. labels at the dtype maximum "
+        "(<= 16 bit) and labels > 65535 (>= 32 bit), images without background / without foreground / 1x1 / 1xN / Nx1 in "
+        "every dtype; mask (dense, half, all, none, foreground-only, box) and size_fn (area thresholds per foreground/"
+        "background) separately and together; each call repeated in the same process; checkerboards (quick 120x120 > 7000 regions; thorough 200x200 = 20000 regions through the model and 380x380 > 64K regions against binary_fill_holes only); "
         "non-trivial = at least one region is repainted; distinct by hash of the case")
 TRUSTED = [
-    "modelled, not verified: scipy.ndimage.label (the model takes blabels/count as an argument; theorems assume "
-    "only 'a numbering of the 4-connected background components'; the model's own flood fill label4 is compared "
-    "with scipy's numbering on every case below 3000 pixels)",
-    "modelled, not verified: NumPy np.unique / np.lexsort / np.bincount / fancy indexing as transcribed "
-    "(merge sort + adjacent de-duplication, bincount as a fold, Indexes.fwd_idx as an exclusive prefix sum)",
+    "scipy.ndimage.label: the model takes blabels/count as an argument; C08_fill_labeled_holes_correct_img assumes "
+    "Spec.valid_labelling (background pixels and only they are numbered 1..count; 4-adjacent background pixels share a "
+    "number); the verified boolean test labelling_ok_b of exactly that hypothesis is evaluated on scipy's output and on "
+    "the model's own flood fill label4 for every case, and label4's numbering is compared with scipy's",
+    "NumPy np.unique / np.lexsort / np.bincount / fancy indexing as transcribed (merge sort + adjacent de-duplication, "
+    "bincount as a fold, Indexes.fwd_idx as an exclusive prefix sum): the transcription is compared array by array; "
+    "what the transcribed arrays mean (symmetric duplicate-free adjacency, ragged index = neighbour lists) is proved",
     "the spy that wraps fill_labeled_holes_loop inside the staged cpmorphology module to observe i, j, idx, "
     "i_count, is_not_hole, adjacent_non_hole",
 ]
-ASSUMPTIONS = ["labels are non-negative integers below 2^31 (uint32 casts in the wrapper are lossless)",
-               "mask=None, size_fn=None (the observed call is fill_labeled_holes(labels))",
+ASSUMPTIONS = ["labels are non-negative integers below 2^31 (uint32 casts in the wrapper are lossless); label values are "
+               "kept <= 100000 because the wrapper allocates arrays of max(label)+count+2 entries (a label at the int32/"
+               "int64 maximum needs > 16 GB) - dtype maxima are exercised for bool/int8/uint8/int16/uint16 only",
+               "the theorems and the spec checker are about mask=None, size_fn=None; calls with mask / size_fn are tied to the "
+               "array-level model fill_gen by exact correspondence only",
                "the image has at least one pixel (np.max of an empty array raises)"]
 EXHAUSTIVE = {"quick": False, "thorough": True}
 CASE_TIMEOUT = 120
 BATCH = 48
-MODEL_MAX_SIDE = 250
+MODEL_MAX_SIDE = 400
 CHECK_MAX_PIX = 1200        # the verified spec checker is quadratic in the number of edges
 
 CORPUS = [
@@ -137,6 +146,57 @@ def generate(ctx):
             if dt == "uint8" and mx > 255:
                 dt = "int32"
         cases.append({"k": "one", "lab": lab.tolist(), "dt": dt}); ctx.count("random_" + dt)
+    # every dtype x layout; label values at the dtype maximum (narrow types) / above 65535 (wide types)
+    for dt in DTYPES:
+        for layout in LAYOUTS:
+            for rep in range(ctx.n(2, 8)):
+                lab = _rand_image(rng, 12)
+                if dt == "bool":
+                    lab = (lab != 0).astype(int)
+                elif dt in _DTMAX:
+                    top = _DTMAX[dt]
+                    if lab.max() > top:
+                        lab = lab % (top + 1)
+                    if rep % 2 == 0 and lab.max() > 0 and (top < 1000 or rep == 0):
+                        lab = np.where(lab == lab.max(), top, lab)          # a label at the dtype maximum
+                elif rep == 0 and layout in ("C", "strided") and lab.max() > 0:
+                    lab = np.where(lab == lab.max(), int(rng.choice([65536, 70000, 100000])), lab)   # labels > 65535
+                cases.append({"k": "one", "lab": lab.tolist(), "dt": dt, "layout": layout}); ctx.count("dtype_" + dt)
+                ctx.count("layout_" + layout)
+        # degenerate images in every dtype: no background, no foreground, 1x1, 1xN, Nx1
+        v = 1 if dt == "bool" else min(_DTMAX.get(dt, 9), 9)
+        for lab in ([[v]], [[0]], [[v, v, v], [v, v, v]], [[0, 0], [0, 0], [0, 0]], [[v, 0, v, 0, 1]], [[1], [0], [v]],
+                    [[v, v, v], [v, 0, v], [v, v, v]], [[1, v], [v, 1]]):
+            cases.append({"k": "one", "lab": lab, "dt": dt, "layout": str(rng.choice(LAYOUTS))}); ctx.count("degenerate")
+    # mask and size_fn, separately and together
+    for _ in range(ctx.n(500, 3000)):
+        lab = _rand_image(rng, 16)
+        H, W = lab.shape
+        c = {"k": "one", "lab": lab.tolist(), "dt": str(rng.choice(["int64", "int32", "uint8", "uint16", "bool", "float64"])),
+             "layout": str(rng.choice(LAYOUTS))}
+        if c["dt"] == "bool":
+            c["lab"] = (lab != 0).astype(int).tolist()
+        elif c["dt"] == "uint8" and lab.max() > 255:
+            c["dt"] = "int32"
+        u = rng.rand()
+        if u < 0.66:
+            mk = rng.choice(["dense", "half", "all", "none", "fg", "box"])
+            if mk == "dense":
+                m = rng.rand(H, W) < 0.9
+            elif mk == "half":
+                m = rng.rand(H, W) < 0.5
+            elif mk == "all":
+                m = np.ones((H, W), bool)
+            elif mk == "none":
+                m = np.zeros((H, W), bool)
+            elif mk == "fg":
+                m = (lab != 0) | (rng.rand(H, W) < 0.7)
+            else:
+                m = np.zeros((H, W), bool); m[H // 4:H - H // 4, W // 4:W - W // 4] = True
+            c["mask"] = m.astype(int).tolist(); ctx.count("mask_" + str(mk))
+        if u > 0.33:
+            c["size"] = [int(rng.choice([0, 1, 2, 4, 8, 1000])), int(rng.choice([0, 1, 2, 3, 6, 1000]))]; ctx.count("size_fn")
+        cases.append(c)
     for n in ctx.n([120], [120, 200, 380]):
         cb = (np.indices((n, n)).sum(0) % 2)
         c = {"k": "one", "lab": cb.tolist(), "dt": "int32"}
@@ -175,10 +235,40 @@ def _images(case):
 
 # ------------------------------------------------------------------------------- implementation
 
-def _impl_one(lab, dt):
+DTYPES = ["bool", "int8", "uint8", "int16", "uint16", "int32", "uint32", "int64", "uint64", "float32", "float64"]
+LAYOUTS = ["C", "F", "strided", "rev", "ro", "T"]
+_DTMAX = {"bool": 1, "int8": 127, "uint8": 255, "int16": 32767, "uint16": 65535}
+
+
+def _layout(a, layout):
+    if layout == "F":
+        return np.asfortranarray(a)
+    if layout == "strided":
+        big = np.zeros((a.shape[0] * 2 + 1, a.shape[1] * 3 + 2), a.dtype)
+        big[1::2, 2::3] = a
+        return big[1::2, 2::3]
+    if layout == "rev":
+        return np.ascontiguousarray(a[::-1, ::-1])[::-1, ::-1]
+    if layout == "T":
+        return np.ascontiguousarray(a.T).T
+    a = np.ascontiguousarray(a)
+    if layout == "ro":
+        a.setflags(write=False)
+    return a
+
+
+def _size_fn(size):
+    if size is None:
+        return None
+    tf, tb = size
+    return lambda area, is_foreground: bool(area < (tf if is_foreground else tb))
+
+
+def _impl_one(lab, dt, layout="C", mask=None, size=None):
     import scipy.ndimage as nd
     from centrosome import cpmorphology as M
-    a = np.array(lab).astype(dt)
+    a = _layout(np.array(lab).astype(dt), layout)
+    m = None if mask is None else _layout(np.array(mask).astype(bool), "F" if layout in ("F", "T") else "C")
     rec = {}
     real = M.__dict__.get("_c08_real_loop") or M.fill_labeled_holes_loop
     M.__dict__["_c08_real_loop"] = real
@@ -190,34 +280,50 @@ def _impl_one(lab, dt):
         rec["nh"] = [int(x != 0) for x in is_not_hole.tolist()]
         rec["anh"] = adjacent_non_hole.tolist()
         return r
+    kw = {}
+    if m is not None:
+        kw["mask"] = m
+    if size is not None:
+        kw["size_fn"] = _size_fn(size)
     M.fill_labeled_holes_loop = spy
     try:
         before = a.copy()
-        out = M.fill_labeled_holes(a)
+        mbefore = None if m is None else m.copy()
+        out = M.fill_labeled_holes(a, **kw)
     finally:
         M.fill_labeled_holes_loop = real
-    bl, count = nd.label(a == 0, M.four_connect)
-    out2 = M.fill_labeled_holes(out)
+    bg = (a == 0) if m is None else ((a == 0) & m)
+    bl, count = nd.label(bg, M.four_connect)
     flags = 0
     if out.dtype != a.dtype or out.shape != a.shape:
         flags |= 1
-    if not np.array_equal(out2, out) or out2.dtype != out.dtype:
-        flags |= 2
-    if int(a.max()) <= 1:
-        ref = nd.binary_fill_holes(a != 0, M.four_connect)
-        if not np.array_equal(out != 0, ref):
-            flags |= 4
-    if not np.array_equal(a, before):
+    again = M.fill_labeled_holes(a, **kw)                 # same call again in the same process
+    if again.dtype != out.dtype or not np.array_equal(again, out):
+        flags |= 16
+    if not kw:
+        out2 = M.fill_labeled_holes(out)
+        if not np.array_equal(out2, out) or out2.dtype != out.dtype:
+            flags |= 2
+        if int(a.max()) <= 1:
+            ref = nd.binary_fill_holes(a != 0, M.four_connect)
+            if not np.array_equal(out != 0, ref):
+                flags |= 4
+    if not np.array_equal(a, before) or (m is not None and not np.array_equal(m, mbefore)):
         flags |= 8
+    if m is not None and out.shape == a.shape and not np.array_equal(out[~m], a[~m]):
+        flags |= 64
+    outi = out.astype(np.int64)
+    if not np.array_equal(outi.astype(out.dtype), out):
+        flags |= 32                                       # non-integral / unrepresentable output value
     called = 1 if rec else 0
-    return [out.astype(np.int64).tolist(), bl.astype(np.int64).tolist(), int(count), called,
+    return [outi.tolist(), bl.astype(np.int64).tolist(), int(count), called,
             rec.get("i", []), rec.get("j", []), rec.get("idx", []), rec.get("cnt", []),
             rec.get("nh", []), rec.get("anh", []), int(rec.get("lcount", int(a.astype(np.int64).max()))), 1, flags]
 
 
 def impl(case):
     if case["k"] == "one":
-        return {"r": [_impl_one(case["lab"], case["dt"])]}
+        return {"r": [_impl_one(case["lab"], case["dt"], case.get("layout", "C"), case.get("mask"), case.get("size"))]}
     return {"r": [_impl_one(lab, "int64") for lab in _sweep_images(case)]}
 
 
@@ -239,8 +345,11 @@ def _run(ctx, entry, args):
         return []
     exe = core.ensure_extracted(ctx)
     text = "\n".join(entry + " " + json.dumps(a).translate(_TR_OUT) for a in args) + "\n"
+    env = dict(os.environ)
+    env["OCAMLRUNPARAM"] = "s=32M"      # large minor heap: the extracted list code recurses deeply, and every minor
+                                        # collection scans the whole stack
     r = subprocess.run(["bash", "-c", "ulimit -s unlimited 2>/dev/null; exec " + exe], input=text,
-                       capture_output=True, text=True, timeout=3600)
+                       capture_output=True, text=True, timeout=3600, env=env)
     if r.returncode != 0:
         raise RuntimeError("model driver failed: " + r.stderr[-1000:])
     lines = r.stdout.splitlines()
@@ -262,17 +371,34 @@ def _par(ctx, entry, args, nproc=6):
     return [x for p in parts for x in p]
 
 
+def _plain(c):
+    return c["k"] != "one" or (c.get("mask") is None and c.get("size") is None)
+
+
 def model(ctx, cases, outs):
-    args, where = [], []
+    args, where, gargs, gwhere = [], [], [], []
     for k, (c, o) in enumerate(zip(cases, outs)):
         if _bad(o) or c.get("nomodel"):
             continue
         for n, (lab, r) in enumerate(zip(_images(c), o["r"])):
-            args.append([lab, r[1], r[2], r[:12]]); where.append((k, n))
+            if _plain(c):
+                args.append([lab, r[1], r[2], r[:12]]); where.append((k, n))
+            if c["k"] == "one":
+                gargs.append([lab, [] if c.get("mask") is None else [c["mask"]], c.get("size") or [], r[1], r[2], r[:12]])
+                gwhere.append((k, n))
     res = _par(ctx, "entry_fill_eq", args)
+    gres = _par(ctx, "entry_gen_eq", gargs)
+    # the labelling hypothesis of C08_fill_labeled_holes_correct_img, tested on scipy's blabels and on the model's own
+    lres = _par(ctx, "entry_label_ok", [a[:3] for a in args])
     mouts = [[] for _ in cases]
-    for (k, n), m in zip(where, res):
-        mouts[k].append(m)
+    for (k, n), m, lo in zip(where, res, lres):
+        mouts[k].append(m if lo == [1, 1] else ["labelling", lo])
+    for (k, n), m in zip(gwhere, gres):
+        if _plain(cases[k]):
+            if m != 1:
+                mouts[k][n] = ["gen", m]
+        else:
+            mouts[k].append([1, 1] if m == 1 else ["gen", m])
     return mouts
 
 
@@ -289,6 +415,10 @@ def compare(case, out, m):
     for n, (lab, r) in enumerate(zip(imgs, out["r"])):
         if n >= len(m) or m[n] != [1, 1]:
             which = "with scipy's blabels" if (n < len(m) and isinstance(m[n], list) and m[n][:1] == [0]) \
+                else "(general model fill_gen: mask=%s size=%s)" % ("yes" if case.get("mask") is not None else "None", case.get("size")) \
+                if (n < len(m) and isinstance(m[n], list) and m[n][:1] == ["gen"]) \
+                else "(valid_labelling fails for [scipy's blabels, the model's label4] = %s)" % (m[n][1:],) \
+                if (n < len(m) and isinstance(m[n], list) and m[n][:1] == ["labelling"]) \
                 else "with the model's own flood-fill labelling"
             return "image %s: model (out, blabels, count, called, i, j, idx, i_count, is_not_hole, adjacent_non_hole, " \
                    "lcount) differs from the implementation %s: model says %s" % (
@@ -309,7 +439,10 @@ def explain(ctx, lab, r):
 
 _FLAGS = {1: "output dtype/shape differs from the input's", 2: "filling twice differs from filling once",
           4: "binary input disagrees with scipy.ndimage.binary_fill_holes (4-connected)",
-          8: "the input array was modified"}
+          8: "an input array (labels or mask) was modified",
+          16: "the same call repeated in the same process returned a different result",
+          32: "output values are not exactly representable integers of the input dtype",
+          64: "pixels outside the mask were changed"}
 
 
 def check(ctx, cases, outs):
@@ -323,7 +456,9 @@ def check(ctx, cases, outs):
             if r[12]:
                 msg = "; ".join(t for b, t in _FLAGS.items() if r[12] & b)
                 res[k] = res[k] or "image %s: %s" % (json.dumps(lab)[:300], msg)
-            if len(lab) * len(lab[0]) <= CHECK_MAX_PIX:
+            if not _plain(c):
+                ctx.count("checker_not_applicable_mask_or_size_fn")
+            elif len(lab) * len(lab[0]) <= CHECK_MAX_PIX:
                 args.append([lab, r[0]]); where.append((k, n, lab))
             else:
                 ctx.count("checker_skipped_large")
@@ -373,33 +508,58 @@ def shrink_candidates(case):
         return
     lab = case["lab"]
     H, W = len(lab), len(lab[0])
-    dt = case["dt"]
+    mask = case.get("mask")
+
+    def mk(newlab, newmask=mask, **over):
+        c = {"k": "one", "lab": newlab, "dt": case["dt"]}
+        for f in ("layout", "size"):
+            if case.get(f) is not None:
+                c[f] = case[f]
+        if newmask is not None:
+            c["mask"] = newmask
+        for f, v in over.items():
+            if v is None:
+                c.pop(f, None)
+            else:
+                c[f] = v
+        return c
+    if case.get("layout", "C") != "C":
+        yield mk(lab, layout=None)
+    if mask is not None:
+        yield mk(lab, None)
+    if case.get("size") is not None:
+        yield mk(lab, size=None)
+    if case["dt"] != "int64":
+        yield mk(lab, dt="int64")
     if H > 1:
         for r in range(H):
-            yield {"k": "one", "lab": lab[:r] + lab[r + 1:], "dt": dt}
+            yield mk(lab[:r] + lab[r + 1:], None if mask is None else mask[:r] + mask[r + 1:])
     if W > 1:
         for c in range(W):
-            yield {"k": "one", "lab": [row[:c] + row[c + 1:] for row in lab], "dt": dt}
+            yield mk([row[:c] + row[c + 1:] for row in lab], None if mask is None else [row[:c] + row[c + 1:] for row in mask])
     vals = sorted(set(v for row in lab for v in row))
     for v in vals:
         if v > 1:
             w = max(x for x in [0] + vals if x < v)
-            yield {"k": "one", "lab": [[(w + 1 if x == v else x) if w + 1 < v else x for x in row] for row in lab], "dt": dt}
+            if w + 1 < v:
+                yield mk([[w + 1 if x == v else x for x in row] for row in lab])
     n = 0
     for r in range(H):
         for c in range(W):
-            if lab[r][c] != 0 and n < 20:
+            if lab[r][c] != 0 and n < 12:
                 n += 1
                 m = [list(row) for row in lab]; m[r][c] = 0
-                yield {"k": "one", "lab": m, "dt": dt}
-    if dt != "int64":
-        yield {"k": "one", "lab": lab, "dt": "int64"}
+                yield mk(m)
 
 
 MANIFEST = {
     "level_text": (
         "Machine-checked proofs (Coq 8.16) about an executable Gallina model of fill_labeled_holes and "
-        "fill_labeled_holes_loop, for every region-adjacency graph and every stack order: when the first walk stops, "
+        "fill_labeled_holes_loop. Image level: for every rectangular non-negative label image and every numbering of "
+        "the 4-connected background components, the model terminates within its fuel and every output pixel is "
+        "unchanged if its region is in the least set closed under the three rules and otherwise carries an unchanged "
+        "object adjacent to its cluster (edge extraction, lexsort/dedupe/symmetrise, bincount/fwd_idx proved to yield "
+        "the region adjacency graph). Graph level, for every region-adjacency graph and every stack order: when the first walk stops, "
         "is_not_hole marks exactly the least set closed under the three 'unchanged' rules; unchanged neighbours of "
         "changed regions are objects and a changed region touches at most one of them; the second walk labels every "
         "changed region with an unchanged object adjacent to its cluster (the unique one when there is only one); each "
